@@ -1,0 +1,44 @@
+// Copyright (C) 2026 Storj Labs, Inc.
+// See LICENSE for copying information.
+
+//go:build verif
+
+package drpcpool
+
+// VerifEntry describes one cached entry as seen by walking the pool's lists.
+type VerifEntry[K comparable, V Conn] struct {
+	Key K
+	Val V
+}
+
+// VerifWalk walks the global list and every per-key list under the pool lock
+// and returns what it finds together with the stored counts. It exists only
+// under the verif build tag so that external checkers can observe how many
+// connections are cached.
+func (p *Pool[K, V]) VerifWalk() (global []VerifEntry[K, V], globalCount int, local map[K][]VerifEntry[K, V], localCount map[K]int) {
+	p.mu.Lock()
+	defer p.mu.Unlock()
+
+	for ent := p.order.head; ent != nil; ent = ent.global.next {
+		global = append(global, VerifEntry[K, V]{Key: ent.key, Val: ent.val})
+		if len(global) > 1<<20 {
+			break
+		}
+	}
+	globalCount = p.order.count
+
+	local = make(map[K][]VerifEntry[K, V])
+	localCount = make(map[K]int)
+	for key, l := range p.entries {
+		var es []VerifEntry[K, V]
+		for ent := l.head; ent != nil; ent = ent.local.next {
+			es = append(es, VerifEntry[K, V]{Key: ent.key, Val: ent.val})
+			if len(es) > 1<<20 {
+				break
+			}
+		}
+		local[key] = es
+		localCount[key] = l.count
+	}
+	return global, globalCount, local, localCount
+}
